@@ -502,6 +502,19 @@ PROPS["C15"]["rule"] += ("; plus histories against a real Nucleo with 2-5 column
 PROPS["C15"]["require"]["any"]["c15.multi-column-quiescent-states-compared"] = 200
 PROPS["C15"]["require"]["any"]["c15.ticks-after-edits-of-2+-columns"] = 50
 
+_c18_base = PROPS["C18"]["jobs"]
+_c18_replay = PROPS["C18"]["replay"]
+# the sort as the worker uses it: its comparison, the cancel flag raised by pattern edits while a sort is going on, the published order
+PROPS["C18"]["jobs"] = lambda tier: _c18_base(tier) + [
+    wk("nucleo-order-chk", "random", "chk", 3, 1000000, 20 if tier != "thorough" else 600, props="C18"),
+    wk("nucleo-order-directed", "directed", "chk", 2, 1000000, 20 if tier != "thorough" else 600, props="C18"),
+    wk("nucleo-order-rel", "random", "rel", 1, 1000000, 20 if tier != "thorough" else 600, props="C18", shard_base=3)]
+PROPS["C18"]["replay"] = lambda rj: (replay_generic("worker_mon", "directed" if "directed" in (rj.get("job") or "") else "random", "C18")(rj)
+                                     if (rj.get("job") or "").startswith("nucleo-") else _c18_replay(rj))
+PROPS["C18"]["rule"] += ("; plus histories against a real Nucleo: every published match list must be sorted by the worker's total order (score descending, length, index), "
+                         "also when pattern edits raise the cancel flag while a sort is going on")
+PROPS["C18"]["require"]["any"]["c18.published-match-lists-checked-for-order"] = 1000
+
 _c02_base = PROPS["C02"]["jobs"]
 PROPS["C02"]["jobs"] = lambda tier: _c02_base(tier) + [
     grid_job("grid-miri", "miri", 6 if tier != "thorough" else 16, 1 if tier != "thorough" else 4, 50 if tier != "thorough" else 2400, 6000 if tier != "thorough" else 110000, miriflags=MIRI_SB)]
